@@ -475,3 +475,91 @@ impl Prop for C11 {
     fn real_vs_stub(&self) -> serde_json::Value { serde_json::json!({"real": ["RSPEngine (window processors, coordinator, join_window_results, natural_join, emit_results, static store)", "SimpleR2R", "CSPARQLWindow"], "simulated": ["std thread / Mutex / mpsc (shuttle)", "crossbeam channel incl. recv_timeout on the simulated clock", "Instant (simulated clock)", "event source", "hash keys"], "not_run": ["cross-window SDS+ reasoning path (C12 drives incremental_sds_plus directly)"]}) }
     fn matches_known(&self, c: &MultiCase, v: &Violation, m: &str) -> bool { match m { "foreign-window-items-shared-vocabulary" => v.class == "foreign-window-items" && c.shared_vocab, _ => false } }
 }
+
+// =====================================================================================================================
+// C12 (engine clause): the real RSPEngine cross-window path (build_cross_window_sds + emit_cross_window_results) in
+// Incremental mode must emit what the same engine emits in Naive (from-scratch) mode, event by event.
+use crate::dlsim::{SdsCase, C12 as C12Sds};
+use kolibrie::rsp_engine::CrossWindowReasoningMode;
+#[derive(Serialize, Deserialize, Clone, Debug)]
+pub struct XwCase { pub hash_seed: u64, pub wins: Vec<WinSpec>, pub rules: Vec<dm::Rule>, pub start: usize, pub events: Vec<Ev> }
+#[derive(Serialize, Deserialize, Clone, Debug)]
+pub enum C12Case { Sds(SdsCase), Engine(XwCase) }
+pub struct C12;
+const ENGINE_CLAUSE_ONE_IN: u64 = 0;
+
+fn xw_rule_txt(r: &dm::Rule) -> String { let body = |ps: &[Pat]| ps.iter().map(|p| format!("{} <{}> {}", term_txt(&p.0), p.1, term_txt(&p.2))).collect::<Vec<_>>().join(" .\n  "); format!("{{ {} }}\n=> {{ {} }}\n", body(&r.prem), body(&r.conc)) }
+fn xw_scenario(c: &XwCase, mode: CrossWindowReasoningMode) -> Result<(Vec<Row>, Vec<usize>), String> {
+    let out: Arc<Mutex<Vec<Row>>> = Arc::new(Mutex::new(vec![]));
+    let o2 = out.clone();
+    let consumer = ResultConsumer { function: Arc::new(move |r: Row| { o2.lock().unwrap().push(r); }) };
+    let r2r = Box::new(SimpleR2R::with_execution_mode(QueryExecutionMode::Volcano));
+    let mut q = String::from("REGISTER RSTREAM <http://out/stream> AS SELECT * ");
+    for (i, w) in c.wins.iter().enumerate() { q.push_str(&format!("FROM NAMED WINDOW :w{} ON :s{} [RANGE {} STEP {}] ", i, i, w.width, w.slide)); }
+    q.push_str("WHERE { "); for (i, w) in c.wins.iter().enumerate() { q.push_str(&format!("WINDOW :w{} {{ {} }} ", i, pats_txt(&w.block))); } q.push('}');
+    let rules_txt: String = c.rules.iter().map(xw_rule_txt).collect();
+    let mut e: Engine = RSPBuilder::new().add_rsp_ql_query(&q).add_consumer(consumer).add_r2r(r2r).set_operation_mode(OperationMode::SingleThread).add_cross_window_rules(&rules_txt).set_cross_window_reasoning_mode(mode).build().map_err(|e| e.to_string())?;
+    let n = c.wins.len(); let mut ts = c.start; let mut marks = vec![];
+    for (i, ev) in c.events.iter().enumerate() {
+        if i > 0 { ts += ev.gap; }
+        let triples = e.parse_data(&format!("<{}> <{}> <{}> .", ev.s, ev.p, ev.o));
+        if triples.len() != 1 { return Err("parse_data".into()); }
+        e.add_to_stream(&format!(":s{}", ev.stream % n), triples[0].clone(), ts);
+        marks.push(out.lock().unwrap().len());
+    }
+    e.process_single_thread_window_results();
+    marks.push(out.lock().unwrap().len());
+    drop(e);
+    let rows = out.lock().unwrap().clone();
+    Ok((rows, marks))
+}
+fn gen_xw(seed: u64) -> XwCase {
+    let mut r = Rng::sub(seed, "xw");
+    let node = |r: &mut Rng| iri(&format!("n{}", r.usize(3)));
+    let n = 2;
+    let wins: Vec<WinSpec> = (0..n).map(|w| WinSpec { width: 2 + r.usize(8), slide: 1 + r.usize(4), block: vec![(format!("?a{}", w), iri(if r.chance(1, 2) { "r" } else { ["p", "q"][w] }), if w == 1 && r.chance(1, 2) { "?a0".to_string() } else { format!("?b{}", w) })] }).collect();
+    // rules over window-annotated predicates (":w<i>" + predicate IRI); conclusions land in a window component so the blocks can see them
+    let ann = |w: usize, p: &str| format!(":w{}{}", w, iri(p));
+    let mut rules = vec![dm::Rule { prem: vec![("?x".into(), ann(0, "p"), "?y".into()), ("?y".into(), ann(1, "q"), "?z".into())], conc: vec![("?x".into(), ann(r.usize(2), "r"), "?z".into())], ..Default::default() }];
+    if r.chance(1, 2) { rules.push(dm::Rule { prem: vec![("?x".into(), ann(0, "r"), "?y".into()), ("?y".into(), ann(0, "p"), "?z".into())], conc: vec![("?x".into(), ann(0, "r"), "?z".into())], ..Default::default() }); }
+    if r.chance(1, 2) { rules.push(dm::Rule { prem: vec![("?x".into(), ann(1, "q"), "?y".into())], conc: vec![("?y".into(), ann(1, "r"), "?x".into())], ..Default::default() }); }
+    let ne = 6 + r.usize(24);
+    let events = (0..ne).map(|_| { let w = r.usize(n); Ev { gap: if r.chance(1, 8) { 5 + r.usize(20) } else { r.usize(3) }, stream: w, s: node(&mut r), p: iri(["p", "q"][w]), o: node(&mut r), advance_ms: 0 } }).collect();
+    XwCase { hash_seed: Rng::sub(seed, "hash").next(), wins, rules, start: r.usize(3), events }
+}
+fn exec_xw(c: &XwCase, ctx: &mut Ctx) -> Option<Violation> {
+    if c.wins.len() < 2 || c.events.is_empty() { return None; }
+    let inc = match guard(|| xw_scenario(c, CrossWindowReasoningMode::Incremental)) { Ok(Ok(x)) => x, Ok(Err(e)) => { ctx.hit("engine_build_rejected_skipped"); ev!(ctx.log, "build: {}", e); return None; } Err((loc, msg)) => return Some(Violation::new("unwind", format!("cross-window engine (incremental) unwound at {}: {}", loc, msg.chars().take(200).collect::<String>()))) };
+    let nai = match guard(|| xw_scenario(c, CrossWindowReasoningMode::Naive)) { Ok(Ok(x)) => x, Ok(Err(e)) => return Some(Violation::new("engine-modes-build-differently", e)), Err((loc, msg)) => return Some(Violation::new("unwind", format!("cross-window engine (naive) unwound at {}: {}", loc, msg.chars().take(200).collect::<String>()))) };
+    ev!(ctx.log, "engine: events={} rows incremental={} naive={}", c.events.len(), inc.0.len(), nai.0.len());
+    let (mut a0, mut b0) = (0usize, 0usize);
+    for (i, (ma, mb)) in inc.1.iter().zip(nai.1.iter()).enumerate() {
+        let (ra, rb) = (sorted(inc.0[a0..*ma].to_vec()), sorted(nai.0[b0..*mb].to_vec())); a0 = *ma; b0 = *mb;
+        ev!(ctx.log, "event {}: incremental {:?} | naive {:?}", i, ra, rb);
+        if ra != rb { return Some(Violation::new("engine-incremental-vs-naive-differ", format!("real RSPEngine, cross-window rules {:?}: at event {} the incremental engine emitted {} rows, the from-scratch engine {}; only-incremental {:?}; only-naive {:?}", c.rules.iter().map(xw_rule_txt).collect::<String>(), i, ra.len(), rb.len(), ra.iter().find(|x| !rb.contains(x)), rb.iter().find(|x| !ra.contains(x))))); }
+    }
+    if !inc.0.is_empty() { ctx.hit("probe.engine_cross_window_rows_emitted"); ctx.nontrivial(kolibrie_verif_rt::log::fnv(&format!("{:?}{:?}", c.events, c.rules))); }
+    ctx.hit("class.real_engine_incremental_vs_naive");
+    None
+}
+impl Prop for C12 {
+    type Case = C12Case;
+    fn id(&self) -> &'static str { "C12" }
+    fn budget(&self, tier: Tier) -> Budget { C12Sds.budget(tier) }
+    fn hash_seed(&self, c: &C12Case) -> u64 { match c { C12Case::Sds(s) => s.hash_seed, C12Case::Engine(e) => e.hash_seed } }
+    // The engine clause is NOT generated (ENGINE_CLAUSE_ONE_IN = 0): it turned out to demand more than C12 states. The real engine evaluates the
+    // SDS at the time its window contents last changed, which can precede the window's trigger time, so a fact can leave a window's listing
+    // while `event_time + alpha` is still in the future: such histories are outside C12's quantifier ("facts stay listed until they expire"),
+    // and there incremental and from-scratch reasoning legitimately differ (DESIGN.md 14.1). The code is kept for replaying that observation.
+    fn gen(&self, seed: u64, i: u64, tier: Tier) -> C12Case { if ENGINE_CLAUSE_ONE_IN > 0 && Rng::sub(seed, "kind").chance(1, ENGINE_CLAUSE_ONE_IN) { C12Case::Engine(gen_xw(seed)) } else { C12Case::Sds(C12Sds.gen(seed, i, tier)) } }
+    fn exec(&self, c: &C12Case, ctx: &mut Ctx) -> Option<Violation> { match c { C12Case::Sds(s) => C12Sds.exec(s, ctx), C12Case::Engine(e) => exec_xw(e, ctx) } }
+    fn shrink(&self, c: &C12Case) -> Vec<C12Case> {
+        match c {
+            C12Case::Sds(s) => C12Sds.shrink(s).into_iter().map(C12Case::Sds).collect(),
+            C12Case::Engine(e) => { let mut out: Vec<C12Case> = shrink_vec(&e.events).into_iter().filter(|x| !x.is_empty()).map(|x| C12Case::Engine(XwCase { events: x, ..e.clone() })).collect(); for r in shrink_vec(&e.rules) { if !r.is_empty() { out.push(C12Case::Engine(XwCase { rules: r, ..e.clone() })); } } for (i, ev) in e.events.iter().enumerate() { if ev.gap > 0 { let mut evs = e.events.clone(); evs[i].gap = ev.gap / 2; out.push(C12Case::Engine(XwCase { events: evs, ..e.clone() })); } } out }
+        }
+    }
+    fn rule(&self) -> String { C12Sds.rule() }
+    fn assumptions(&self) -> Vec<String> { let mut a = C12Sds.assumptions(); a.push("an engine-level clause (incremental vs naive RSPEngine) was built and withdrawn: the engine's own histories are not window-consistent in the property's sense, so the clause demanded more than the statement".into()); a }
+    fn real_vs_stub(&self) -> serde_json::Value { serde_json::json!({"real": ["incremental_sds_plus", "naive_sds_plus", "translate_sds_to_datalog", "ExpirationProvenance semi-naive", ], "simulated": ["stream arrival times and evaluation clock", "window contents (simulated windows; the real CSPARQLWindow is exercised by C09-C11)", "rayon (sim-rayon)", "hash keys"], "not_run": ["RSPEngine cross-window wiring (build_cross_window_sds, emit_cross_window_results): its evaluation times make histories that are outside the property's quantifier"]}) }
+}
